@@ -170,8 +170,23 @@ TEXT1 = ['LEN', 'UPPER', 'LOWER', 'TRIM', 'VALUE']
 
 def gen_call(rnd):
     """(function, [Arg], class)"""
-    fam = rnd.choice(['agg', 'agg', 'math1', 'math2', 'math2', 'is', 'text', 'text', 'logic', 'kth', 'parity', 'logic2'])
+    fam = rnd.choice(['agg', 'agg', 'math1', 'math2', 'math2', 'is', 'text', 'text', 'logic', 'kth', 'parity', 'logic2', 'sumproduct'])
     cls = fam
+    if fam == 'sumproduct':
+        # 1-3 referenced arrays, mostly of one shape (entries: exact numbers, numeric and other text, logicals, blanks, now and then
+        # an error); sometimes a shape that does not fit (-> #VALUE!); numbers typed directly only as numbers
+        shape = rnd.choice([(1, 1), (1, 3), (3, 1), (2, 2), (2, 3), (1, 4)])
+        k = rnd.randint(1, 3)
+        args = []
+        for i in range(k):
+            sh_ = shape
+            if i and rnd.random() < 0.12:
+                sh_ = rnd.choice([(1, 2), (3, 1), (2, 2), (1, 3)])
+            kinds = rnd.choice(['iiii', 'iiiisb_', 'iiiist_', 'iiiib', 'iiiiiiie'])
+            args.append(Arg([[gen_val(rnd, kinds) for _ in range(sh_[1])] for _ in range(sh_[0])], False))
+        if shape == (1, 1) and rnd.random() < 0.5:
+            args = [Arg([[rnd.choice([2, 3, 0.5, -1, 10])]], True) for _ in range(k)]
+        return 'SUMPRODUCT', args, cls
     if fam == 'agg':
         f = rnd.choice(AGG + ['COUNTBLANK'])
         if f == 'COUNTBLANK':
